@@ -14,7 +14,7 @@ RULE = ("DUT (down/up/auto converter, cache, remapper, CSR bridge, SRAM incl. bu
 ASSUMPTIONS = ["Migen's simulator (site-packages) defines FHDL semantics",
                "converters use word addressing (asserted by the code); reads are compared on the selected byte lanes only",
                "CSR bridge accesses are full-word or empty selects (the CSR bus has no byte enables)",
-               "cache: slave content that maps to tag 0 is zero at power-up (known finding cache-cold-tag0 is excluded by construction and replayed as witness)",
+               "cache: starts cold over a slave with non-zero content everywhere (valid bits added by the repair of cache-cold-tag0, witness replayed)",
                "burst master presents every beat's address as Wishbone B4 prescribes"]
 
 
@@ -188,9 +188,7 @@ def build(case):
     B.adr_of = lambda op: op["adr"]
     top = Module()
     nbytes = W * bm
-    zero_upto = 0
-    if k == "cache" or (k == "chain" and case["chain"] == "cache_down"):
-        zero_upto = case["cachesize"] * bm if not case.get("cold_tag0") else 0
+    zero_upto = 0          # the slave's content is non-zero everywhere, also where a cold cache's tag 0 would 'hit'
     init = _init_bytes(case["seed"], nbytes, zero_upto)
     B.model = wb.ByteMem(nbytes, init)
 
@@ -291,8 +289,6 @@ def build(case):
 
 
 def _data_key(case, k):
-    if case.get("cold_tag0"):
-        return "cache-cold-tag0"
     if k == "sram_burst":
         # wrap burst with more beats than its wrap length
         run = 0
